@@ -24,6 +24,16 @@ def run(out, tier, seed):
     out.add_tlc("TagsMC", r)
     if r.violated:
         out.judge({"clause": "TagAlgebra"}, {"tlc": r.out[-2000:]})
+    # (1b) the same algebra with object identity: & creates a new object and changes no existing one (TagHeap.tla);
+    #      the InPlace variant of the mechanism must be rejected by the same clauses (they discriminate)
+    r = core.run_tlc("TagHeap", "TagHeap.cfg", workers=4, timeout=600)
+    out.add_tlc("TagHeap", r)
+    if r.violated:
+        out.judge({"clause": "TagAlgebra:heap-model"}, {"tlc": r.out[-2000:]})
+    r2 = core.run_tlc("TagHeap", "TagHeapInPlace.cfg", workers=4, timeout=600)
+    out.add_tlc("TagHeap[InPlace]", r2)
+    if not r2.violated:
+        out.drift.append("TagHeap: the in-place variant of _merge is not rejected by Denotes / OperandsUnchanged (vacuous clauses?)")
     # (2) generated functions with tag assignments x tag selectors, judged by TraceTags
     work = core.scratch("c11-")
     path = os.path.join(work, "tags.json")
@@ -45,7 +55,9 @@ def run(out, tier, seed):
     out.samples.append({k: cases[5][k] for k in ("text", "cfg", "outcome", "stream")})
     # (3) scripted world: tag-restricted generic and named captures along call paths (raw mode reports real names)
     P.run_world(out, tier, seed, gen_case, PLAN, salt=41,
-                rule="TLC: tags.py transcription = set semantics for every tag expression of <= 4 names over {A,B,C}; generated "
+                rule="TLC: tags.py transcription = set semantics for every tag expression of <= 4 names over {A,B,C}; heap model of "
+                     "tag objects (TagHeap: & creates, never mutates; in-place variant rejected); real expression histories over a "
+                     "heap of tag objects with every object's denotation read back after every operation; generated "
                      "functions with random tag sets (string form and object form, shuffled / repeated members) on parameters, "
                      "annotated assignments and return x selectors $x:@T, *:@T, v:@T, $x, f($x:@T) > c, $f:@T > c, with the set of "
                      "instrumented variables observed; scripted-world call trees with tag-restricted generic/named captures",
